@@ -9,4 +9,5 @@ INVARIANT PathCacheCoherent
 INVARIANT TypeCacheCoherent
 INVARIANT PathCacheBounded
 PROPERTY FrameCondition
+CONSTRAINT PrintSchedule
 CHECK_DEADLOCK FALSE
